@@ -55,6 +55,14 @@ pub fn escaped_panic() -> i32 {
     }
 }
 
+/// Runs `f`, catching a panic without printing it (the caller judges the outcome itself).
+pub fn quiet_unwind<R>(f: impl FnOnce() -> R) -> std::thread::Result<R> {
+    let prev = IN_GUARD.with(|g| g.replace(true));
+    let r = std::panic::catch_unwind(std::panic::AssertUnwindSafe(f));
+    IN_GUARD.with(|g| g.set(prev));
+    r
+}
+
 pub fn install(ctx: &Ctx) {
     let out_dir = std::env::var("VERIF_OUT")
         .map(std::path::PathBuf::from)
